@@ -249,6 +249,12 @@ func (o *Operations) Update(
 			}
 		} else {
 			hdr.PAXRecords[records.STFSRecordReplacesContent] = records.STFSRecordReplacesContentFalse
+
+			// Entries which have not been written by STFS carry no size record; keep their size for the index
+			if _, ok := hdr.PAXRecords[records.STFSRecordUncompressedSize]; !ok && hdr.Size > 0 {
+				hdr.PAXRecords[records.STFSRecordUncompressedSize] = strconv.Itoa(int(hdr.Size))
+			}
+
 			hdr.Size = 0 // Don't try to seek after the record
 
 			if o.onHeader != nil {
